@@ -317,16 +317,16 @@ Proof.
 Qed.
 
 Lemma astep_body a m a' d : bodym m = true -> astep a m = Some (a', d) ->
-  a_next a' = a_next a /\ a_fresh a' = false /\ doc_stops d = [] /\ run_rel a a'.
+  a_next a' = a_next a /\ a_fresh a' = false /\ doc_rundocs d = [] /\ run_rel a a'.
 Proof.
   intros Hb H. unfold bodym in Hb. unfold run_rel. astep_cases H; cbn in Hb; try discriminate Hb; rw_run;
-    cbn [a_run a_next a_fresh with_run stale freshen ab_set_bund ab_uid ab_descs doc_stops flat_map app];
+    cbn [a_run a_next a_fresh with_run stale freshen ab_set_bund ab_uid ab_descs doc_rundocs flat_map app];
     rw_run; repeat split; try apply prefix_refl; try apply prefix_app;
     try (destruct (a_run a); [split; [reflexivity | apply prefix_refl] | exact I]).
 Qed.
 
 Lemma arun_body l : forall a a' d, forallb bodym l = true -> arun a l = Some (a', d) ->
-  a_next a' = a_next a /\ (l <> [] -> a_fresh a' = false) /\ doc_stops d = [] /\ run_rel a a'.
+  a_next a' = a_next a /\ (l <> [] -> a_fresh a' = false) /\ doc_rundocs d = [] /\ run_rel a a'.
 Proof.
   induction l as [|m l IH]; intros a a' d Hb H; cbn in H.
   - inv H. repeat split; [congruence | apply run_rel_refl].
@@ -338,7 +338,7 @@ Proof.
     repeat split.
     + congruence.
     + intros _. destruct l as [|m' l]; [cbn in E2; inv E2; exact A2 | apply B2; discriminate].
-    + unfold doc_stops in *. rewrite flat_map_app, A3, B3. reflexivity.
+    + unfold doc_rundocs in *. rewrite flat_map_app, A3, B3. reflexivity.
     + eapply run_rel_trans; eassumption.
 Qed.
 
@@ -359,11 +359,11 @@ End Abs.
 
 Lemma doc_events_app a b : doc_events (a ++ b) = doc_events a ++ doc_events b.
 Proof. apply flat_map_app. Qed.
-Lemma doc_stops_app a b : doc_stops (a ++ b) = doc_stops a ++ doc_stops b.
+Lemma doc_rundocs_app a b : doc_rundocs (a ++ b) = doc_rundocs a ++ doc_rundocs b.
 Proof. apply flat_map_app. Qed.
 Lemma final_events_app a b : final_events (a ++ b) = final_events a ++ final_events b.
 Proof. apply flat_map_app. Qed.
-Lemma stops_app a b : stops (a ++ b) = stops a ++ stops b.
+Lemma rundocs_app a b : rundocs (a ++ b) = rundocs a ++ rundocs b.
 Proof. apply flat_map_app. Qed.
 Lemma no_raise_app a b : no_raise (a ++ b) = no_raise a && no_raise b.
 Proof. apply forallb_app. Qed.
